@@ -128,6 +128,7 @@ def check(prog, run):
     from ..effects import shared_state_rule
     reach_ = sorted(q for q in prog.reachable([prog.func("functions.plscf.pLSCF").qual, prog.func("functions.plscf.pLSCF_poles").qual]) if q in prog.functions and not q.startswith("pyoma2.functions.plot"))
     shared_state_rule(prog, run, "R-stateless", reach_, "the model returned depends on the calls made before (another basis-function sign, another order)")
+    sign_live(prog, run)
     run.rule("R-map", "ac2mp_poly: lambda_c = log(lambda_d)/dt, fn = |lambda_c|/(2 pi), xi = -Re(lambda_c)/|lambda_c|", 3)
     run.rule("R-blank", "Re(lambda) > 0 blanks eigenvalue and eigenvector column alike (same predicate, same array), before fn/xi/phi; inf frequency -> NaN", 5)
     run.rule("O-units", "pLSCF: exp argument dimensionless, alpha ~ S^0, beta ~ S^1 for both basis-function signs; poles ~ 1/s", 8)
@@ -175,10 +176,69 @@ def basis_sign(prog, run):
                 v = env.get("sgn_basf")
                 if isinstance(v, TC) and isinstance(v.v, (int, float)) and not isinstance(v.v, bool):
                     ok = float(v.v) == float(want)
+                    via = next((k_ for k_, x_ in env.items() if k_ != "sgn_basf" and isinstance(x_, TC) and x_.v == method), None)
+                    if not ok and via is not None:
+                        # the estimator's label itself is handed to the routine: the sign may be chosen from it in there (not followed)
+                        run.ob("R-sign", runf.qual, "sgn_basf", None, f"sgn_basf = {v.v!r} for method_SD = {method!r}; the label {method!r} reaches plscf.pLSCF through its parameter `{via}` - "
+                               f"how the sign is chosen from it there was not followed", file=f, node=node, config=cfg)
+                        continue
                     run.ob("R-sign", runf.qual, "sgn_basf", ok, f"sgn_basf = {v.v!r} for method_SD = {method!r}" + ("" if ok else f", expected {want:+d}: the model is fitted with the basis function of the other estimator"),
                            witness=f"{method}:{v.v!r}", file=f, node=node, config=cfg)
                 else:
                     run.ob("R-sign", runf.qual, "sgn_basf", None, f"the sign handed over for method_SD = {method!r} could not be evaluated", file=f, node=node, config=cfg)
+
+
+def sign_live(prog, run):
+    """'for either sign of the basis function': called with its other options at their defaults, plscf.pLSCF builds its basis function
+    from the sign it is given - the sign is not replaced by a constant chosen from another option's default"""
+    run.rule("R-sign-live", "plscf.pLSCF, other options at their defaults: the exponent of the basis function depends on the sign argument "
+             "(a defaulted option from which the sign is chosen instead makes the argument dead)", 1)
+    fi = prog.raw.functions.get("pyoma2.functions.plscf.pLSCF")
+    if fi is None:
+        return
+    f = rel(prog.mods[fi.mod].path)
+    pos, kwo = astq.params_of(fi.node)[0], astq.params_of(fi.node)[1]
+    sp = next((p_ for p_ in pos + kwo if "sgn" in p_ or "sign" in p_), None)
+    if sp is None:
+        run.ob("R-sign-live", fi.qual, "sign argument", None, "no sign parameter found", file=f)
+        return
+    consts = {}
+    for p_ in pos + kwo:
+        d = astq._param_default(fi.node, p_)
+        if p_ != sp and isinstance(d, ast.Constant) and (d.value is None or isinstance(d.value, (str, bool))):
+            consts[p_] = d.value
+    pf = astq.PrunedFn(fi, consts, subst=True, renormalise=False) if consts else fi
+    dep = astq._depends_on(pf.node, {sp})
+    exps = [c for c in ast.walk(pf.node) if isinstance(c, ast.Call) and astq.src(c.func).split(".")[-1] == "exp" and c.args]
+    if not exps:
+        run.ob("R-sign-live", fi.qual, "sign argument", None, "no exp(..) basis function found in pLSCF", file=f)
+        return
+    for c in exps:
+        x_exp = astq.expr_at(pf, c, c.args[0])
+        names = {x.id for x in ast.walk(x_exp) if isinstance(x, ast.Name)}
+        live = names & dep
+        raw_live = {x.id for x in ast.walk(c.args[0]) if isinstance(x, ast.Name)} & dep
+        if not live and raw_live:
+            # written with a name made from the sign, but written out it no longer mentions the sign: a constant under the defaults
+            run.ob("R-sign-live", fi.qual, f"`{sp}` reaches the basis function", False,
+                   f"`{astq.src(c, 50)}`: with the other options at their defaults ({', '.join(f'{k}={v!r}' for k, v in consts.items())}) the exponent is "
+                   f"`{astq.src(x_exp, 70)}` - the sign handed in has no effect", witness="dead", file=f, node=c)
+            return
+        if not live:
+            continue
+        # a name made from the sign by a helper: does the helper still look at the sign when the other options are at their defaults?
+        dead = None
+        for st in ast.walk(pf.node):
+            if isinstance(st, ast.Assign) and any(isinstance(t, ast.Name) and t.id in live for t in st.targets) and isinstance(st.value, ast.Call):
+                v = astq.const_call(pf, st.value, dict(consts), numbers=True)
+                if v is not astq._UNDEC:
+                    dead = (st, v)
+        run.ob("R-sign-live", fi.qual, f"`{sp}` reaches the basis function", dead is None,
+               f"`{astq.src(c, 50)}`" + ("" if dead is None else f": `{astq.src(dead[0], 60)}` is the constant {dead[1]!r} when the other options are left at their defaults "
+                                         f"({', '.join(f'{k}={v!r}' for k, v in consts.items())}) - the sign handed in has no effect"),
+               witness="dead" if dead else "live", file=f, node=c)
+        return
+    run.ob("R-sign-live", fi.qual, f"`{sp}` reaches the basis function", None, "the exponent of the basis function does not mention anything made from the sign argument", file=f)
 
 
 def _is_nan(prog, pf, e):
